@@ -23,12 +23,14 @@ BUILT = {
          "trusted: ledger credits at least what quinn credits (all datagrams routed to or buffered for the connection); VN/refusal sizes not asserted (not bounded by the statement)"),
  "C08": ("simnet", "connections terminated at a generated instant by close() of either/both applications, a path blackhole, a stateless reset with the exact token, or nothing (idle timeout / keep-alive); exactly-once ConnectionLost with an explained reason, none for a local close, CONNECTION_CLOSE in the first transmit after close(), Drained within 3 PTO exactly once, endpoint forgets the connection and its CIDs, idle-timeout bounds, keep-alive holds",
          "trusted: harness; 3*PTO taken from the probe; pad_to_mtu, forced key updates and zero-length-CID+Retry (known findings) excluded by construction; protocol-error terminations belong to C03/C06"),
+ "C11": ("simnet", "exhaustive enumeration (DFS with prefix sharing by re-execution, parallel over 16 threads) of all histories up to depth 6-10 over the alphabet {A/B: open, write small, write to credit, finish, reset(c), stop(c), read some, read all, unordered read, accept, stopped?, received_reset?, set_priority; net: deliver A->B, deliver B->A, sync} for every initiator and direction, from scratch and after an established prefix, plus proptest-generated histories up to 40 steps on up to 3 streams; a reference model written from RFC 9000 section 3 and the rustdoc (set-valued where the documentation leaves a choice) predicts the outcome class of every operation, every StreamEvent, remote_open_streams on both sides, the MAX_STREAMS values on the wire and credit liveness after each sync",
+         "trusted: reference model (notes/c11-NOTES.md lists each set-valued decision with the doc sentence it rests on); loss-free in-order link; reductions stated in the evidence rule (commuting A/B order within a network segment, no-op repeats)"),
  "C12": ("simnet+ctrl", "congestion gate checked around every poll_transmit (bytes in flight vs window read through the probe) with the documented exemptions, cumulative probe budget, in-flight balance at forced quiescence, no loss on clean paths; controller call-history model for window >= 2 datagrams",
          "trusted: verif-hooks probe values; scripted controller implements the public Controller trait"),
  "C13": ("simnet", "per-poll_transmit size oracle against the MTU estimate read immediately before the call, single-MTU-probe exemption (shape, bounds, no second probe), GSO segment shape, Initial/path-validation padding, loss-probe clamp, MTU estimate rises only with a delivered datagram of that size, recovery after black hole",
          "trusted: probe values; link MTU threshold >= configured min_mtu"),
- "C14": ("tokens", "model-based histories of BloomTokenLog (Set->Bloom conversion, both roll-over branches, fingerprint collisions) and TokenMemoryCache (all capacities incl. 0, LRU eviction): Ok never twice for one nonce inside the validity window, every take() was inserted and at most as often; [server-side token presentation model and Retry/CID-echo tampering: in progress]",
-         "trusted: reference models; contract derived from module docs and the caller in token.rs"),
+ "C14": ("tokens", "server acceptance against a binding model over a registry of byte strings the server really issued (Retry and NEW_TOKEN tokens harvested in the same world; both key types; BloomTokenLog default/tiny, exact-set log, NoneTokenLog; lifetimes 1 s..days; generated monotone server clock): genuine, bit-flipped (exhaustive per token in c14a-flips), truncated, extended, spliced and foreign tokens presented from the issuing address, another port, another IP and v4-mapped forms before/at/after expiry and repeatedly; twin presentation of the same Initial with and without an unusable token; client side: Retry packets rewritten/forged/duplicated/late on the link (tag recomputed independently), single-field edits of the three CID transport parameters in both directions, TokenMemoryCache reconnect histories observed on the wire; model-based histories of BloomTokenLog and TokenMemoryCache",
+         "trusted: reference models; unforgeability of the AEAD/HMAC is assumed (SimCrypto token key or ring); contract derived from module docs and the callers"),
  "C10": ("codec", "enumeration plus proptest over the verif-hooks codec wrappers: varints (all 1/2-byte values, boundary-dense 4/8-byte), packet-number truncation/expansion vs RFC 9000 A.2/A.3 reference, frames of all 24 kinds, headers/coalesced packets, transport parameters, tokens (AES-GCM and SimCrypto keys), hashed CIDs: decode(encode(x)) == x, differential agreement with the independent codec wire.rs in both directions, byte-equality of encoders, close frames fit their budget; totality: arbitrary bytes, mutations and every prefix of valid encodings through every decoder without panic or out-of-bounds, accept => re-encode fixpoint",
          "trusted: independent reference codec wire.rs (checked against itself); RFC-strictness disagreements on transport parameters (non-minimal integers refused; slack bytes in two parameters accepted) are observations, not violations of C10 as stated"),
  "C18": ("asyncsim", "the real quinn crate on a harness Runtime (single-threaded deterministic executor, virtual timers, in-memory UDP with generated faults, GSO/GRO batching, send blocking): generated programs of 1-3 application tasks per side over 1-2 connections using every awaited operation with generated cancellation plans and handle drops, scheduled by generated scheduler bytes; oracles: no lost wakeup (spurious re-poll / fresh future at every idle point must not be ready), stuck-operation and livelock bounds in virtual time, byte-exact integrity and explained terminal results, cancel-safety through the integrity bookkeeping, implicit finish/stop/close on handle drop delivered within 3 s virtual on loss-free worlds, driver tasks terminate, no wake into a completed application task",
